@@ -9,6 +9,13 @@ mutants(text) -> generator of (operator, index, mutant text):
    truncate-close: the prefix before token i, with the brackets still open closed again (three variants:
    closers only, `;` then closers, closers then `;`) - the truncations that survive the tokenizer and reach
    the header-of-statement parsers with a short statement
+ string tokens are additionally replaced by each string of STRING_ALPHABET (formatted-text / macro / Hardcode.calc
+ syntax lives inside string literals).
+mutants(text, span=(lo, hi)) edits only tokens that start inside the character range (used for the per-statement
+ programs, whose wrapper / prelude must stay intact).
+contexts(text) -> per token (same numbering as the `index` of the flat operators) its CELL CONTEXT
+   (enclosing construct, statement head, class of the previous token, class of the token)
+ used to stratify the quick-tier sample: every (context x operator) cell is run at least once.
 """
 from __future__ import annotations
 
@@ -25,7 +32,10 @@ LEX = re.compile(r"""
 
 ALPHABET = ["(", ")", "{", "}", "[", "]", ";", ",", ":", "=", "=>", "\"x\"", "\"", "1", "-", "x", "$x", "@s",
             "if", "else", "function", "case", "::", "\\", "#", "//", "execute", "run", "()", "{}", "with", "\n",
-            "extends", "stringify", "default", "expand", "@zz", "true", "\"\\x\"", "'\\u12'"]
+            "extends", "stringify", "default", "expand", "@zz", "true", "\"\\x\"", "'\\u12'",
+            # strengthening round 1: operand / operator / statement-head tokens the positional parsers look for
+            "..", "matches", ":=", "+=", "!", "&&", "$", "-1", "1.5", "return", "while", "for", "switch", "new", "class", "$("]
+STRING_ALPHABET = ['""', '"&<"', '"&<red"', '"&<$x,>"', '"$("', '"Hardcode.calc("']
 GROUP_ALPHABET = [";", "()", "{}", "[]", "x", "\"x\"", "1", "( )", "{ }"]
 BRACKETS = "()[]{}"
 CLOSER = {"(": ")", "[": "]", "{": "}"}
@@ -35,15 +45,95 @@ def lex(text: str):
     return [(m.lastgroup, m.group(0)) for m in LEX.finditer(text)]
 
 
-def mutants(text: str):
+KEYWORDS = {"if", "else", "while", "do", "for", "switch", "case", "default", "function", "class", "new", "return", "run",
+            "execute", "with", "matches", "break", "async", "schedule", "import", "expand", "true", "false", "extends",
+            "stringify", "say", "tellraw"}
+_INT = re.compile(r"\d+$")
+_NUM = re.compile(r"\d+(\.\d+)?[a-zA-Z]?$")
+
+
+def tok_class(kind: str, s: str) -> str:
+    if kind == "str":
+        return "str`" if s[0] == "`" else "str"
+    if kind == "comment":
+        return "comment"
+    if kind != "word":
+        return s
+    if s[0] == "$":
+        return "$var" if len(s) > 1 else "$"
+    if s[0] == "@":
+        return "@sel"
+    if s[0] in "~^":
+        return "coord"
+    if s[0] == "#":
+        return "#dir"
+    if _INT.match(s):
+        return "int"
+    if _NUM.match(s):
+        return "num"
+    if s in KEYWORDS:
+        return s
+    return "dotted" if "." in s else "word"
+
+
+def contexts(text: str):
+    """[(enclosing construct, statement head, class of previous token, class of token)] per non-whitespace token.
+    enclosing construct = opening bracket of the innermost enclosing group + class of the token in front of it;
+    statement head = class of the first token after the preceding `;` / `{` / `}` / opening bracket of that group
+    (`run>` + class of the token after the last `run` when the token sits in the run-clause of an execute)."""
+    pieces = lex(text)
+    toks = [(k, s) for k, s in pieces if k != "ws"]
+    cls = [tok_class(k, s) for k, s in toks]
+    out = []
+    stack = []          # (index of opener)
+    start = 0           # index of the first token of the current statement
+    starts = []         # saved statement starts of the enclosing groups
+    for n, (k, s) in enumerate(toks):
+        body_close = False
+        if k == "punct" and s in CLOSER.values() and stack:
+            o = stack.pop()
+            start = starts.pop()
+            # a `{...}` that is the body of a construct ends the statement; an NBT / JSON object does not
+            body_close = o == 0 or cls[o - 1] in (")", "else", "do", "run", "expand", "=>", "word", "dotted", ":", ";", "{", "}")
+        encl = "top"
+        if stack:
+            o = stack[-1]
+            encl = (cls[o - 1] if o > 0 else "^") + toks[o][1]
+        head = cls[start] if start <= n else cls[n]
+        runs = [j for j in range(start, n) if cls[j] == "run"]
+        if runs and runs[-1] + 1 <= n:
+            head = "run>" + cls[runs[-1] + 1]
+        out.append((encl, head, cls[n - 1] if n > start else "^", cls[n]))
+        if k == "punct" and s in CLOSER:
+            stack.append(n)
+            starts.append(start)
+            start = n + 1
+        elif k == "punct" and s == ";":
+            start = n + 1
+        elif k == "punct" and s == "}" and body_close:
+            start = n + 1
+    return out
+
+
+def mutants(text: str, span=None):
     pieces = lex(text)
     idx = [i for i, (k, _) in enumerate(pieces) if k != "ws"]
     strs = [s for _, s in pieces]
+    kinds = [k for k, _ in pieces]
+    offs, o = [], 0
+    for _, s_ in pieces:
+        offs.append(o)
+        o += len(s_)
+
+    def inside(i):
+        return span is None or span[0] <= offs[i] < span[1]
 
     def join(parts):
         return "".join(parts)
 
     for n, i in enumerate(idx):
+        if not inside(i):
+            continue
         s = strs[i]
         yield ("delete", n, join(strs[:i] + strs[i + 1:]))
         yield ("duplicate", n, join(strs[:i] + [s, " ", s] + strs[i + 1:]))
@@ -55,6 +145,10 @@ def mutants(text: str):
         for a in ALPHABET:
             if a != s:
                 yield ("replace:" + a, n, join(strs[:i] + [a] + strs[i + 1:]))
+        if kinds[i] == "str":
+            for a in STRING_ALPHABET:
+                if a != s:
+                    yield ("replace-str:" + a, n, join(strs[:i] + [a] + strs[i + 1:]))
         yield ("truncate", n, join(strs[:i]))
         if len(s) > 1:
             yield ("truncate-mid", n, join(strs[:i]) + s[:len(s) // 2])
@@ -72,13 +166,17 @@ def mutants(text: str):
             stack.append(i)
         elif t in CLOSER.values() and stack and CLOSER[strs[stack[-1]]] == t:
             groups.append((stack.pop(), i))
-    for g, (a, b) in enumerate(groups):
+    pos_of = {i: n for n, i in enumerate(idx)}
+    for g_, (a, b) in enumerate(groups):
+        if not inside(a):
+            continue
+        g = pos_of[a]           # index of the group's opening token (same numbering as the flat operators)
         yield ("group-delete", g, join(strs[:a] + strs[b + 1:]))
         yield ("group-duplicate", g, join(strs[:b + 1] + [" "] + strs[a:b + 1] + strs[b + 1:]))
         for r in GROUP_ALPHABET:
             yield ("group-replace:" + r, g, join(strs[:a] + [r] + strs[b + 1:]))
     for n, i in enumerate(idx):
-        if n == 0:
+        if n == 0 or not inside(i):
             continue
         closers = "".join(CLOSER[o] for o in reversed(open_at[n]))
         pre = join(strs[:i])
